@@ -59,7 +59,8 @@ Proof.
     intros l E Wo. destruct (O2 l E Wo) as [Xp Wp]. split.
     + destruct (f' p) eqn:Fp; [exfalso | reflexivity]. destruct (F2 p Fp) as [X | [u Hu]]; [congruence|].
       destruct HC as (_ & _ & _ & Hw & _). destruct (Hw u p Hu) as (a & b & _).
-      unfold cvs in b. apply andb_prop in b. destruct b as [b _]. rewrite (Wp b) in a. discriminate a.
+      destruct (cvs_native xw p b ltac:(destruct (x_pc (xget xw p)); try discriminate E; reflexivity)) as [b1 _].
+      rewrite (Wp b1) in a. discriminate a.
     + intros W2. destruct (waiting m' p) eqn:Wm; [|reflexivity]. specialize (F3 p N Wm). rewrite (Wp W2) in F3. discriminate F3.
 Qed.
 
@@ -76,7 +77,7 @@ Proof.
   destruct (mu_idle (mw xw) t) eqn:MI; try exact HO.
   assert (t < length (xthr xw))%nat as Ht by (apply xget_inb; rewrite Hx; discriminate).
   unfold xget in Hx.
-  destruct o as [o'|m| |]; xn Hx; rewrite ?nth_lupd_same by exact Ht; cbn [x_pc x_ops x_rets];
+  destruct o as [o'|m| | |[m|]]; xn Hx; rewrite ?nth_lupd_same by exact Ht; cbn [x_pc x_ops x_rets];
     (apply OInv_upd; [exact HO | exact HP | exact HI | exact Ht | auto | auto | | ]); cbn [x_pc wl3]; try discriminate.
   all: destruct (held (get (mw xw) t)) as [m'|]; [destruct (mode_eqb m m')|]; cbn [wl3]; discriminate.
 Qed.
@@ -172,8 +173,8 @@ Proof.
     + oupd HO HP0 HI0 Ht; cbn [x_pc]; try discriminate; auto.
       * intros p N Wp. cbn [waiting set_waiting] in Wp. now rewrite fupd_other in Wp.
       * intros l' E Wo. cbn [wl3] in E. injection E as <-. apply mem_id_in in Mi.
-        destruct HC as (_ & Hq & _). destruct (Hq t Mi) as [_ Ct]. unfold cvs in Ct. apply andb_prop in Ct.
-        destruct Ct as [_ Ct]. apply negb_true_iff in Ct. split; [exact Ct|]. intros _. cbn [waiting set_waiting].
+        destruct HC as (_ & Hq & _). destruct (Hq t Mi) as [_ Ct].
+        destruct (cvs_native xw t Ct ltac:(rewrite Hx'; reflexivity)) as [_ Ct']. split; [exact Ct'|]. intros _. cbn [waiting set_waiting].
         rewrite fupd_same. reflexivity.
     + oupd HO HP0 HI0 Ht; cbn [x_pc]; try discriminate; auto; try same_l O2.
   - (* XwLoad13 *) assert (t < length (xthr xw))%nat as Ht by (apply HtN; discriminate).
@@ -189,15 +190,15 @@ Proof.
     destruct c; [|destruct (cvq xw)]; cbn [fst]; try exact HO; xn Hx;
       (oupd HO HP0 HI0 Ht; cbn [x_pc wl3]; try discriminate; auto).
   - (* XkSelect *) assert (t < length (xthr xw))%nat as Ht by (apply HtN; discriminate).
-    destruct (if bc then sel_broadcast (wtype (mw xw)) (cvq xw) else sel_signal (wtype (mw xw)) (cvq xw)) as [[wk kp] allr].
-    destruct wk; cbn [fst]; xn Hx; (oupd HO HP0 HI0 Ht; cbn [x_pc wl3]; try discriminate; auto).
+    destruct (if bc then sel_broadcast (xrd xw) (cvq xw) else sel_signal (xrd xw) (cvq xw)) as [[wk kp] allr].
+    destruct wk as [|f wk']; [|destruct (nrec xw f)]; cbn [fst]; xn Hx; (oupd HO HP0 HI0 Ht; cbn [x_pc wl3]; try discriminate; auto).
   - (* XvLoad1 *) assert (t < length (xthr xw))%nat as Ht by (apply HtN; discriminate).
     destruct (xfer_wanted (wtype (mw xw)) (word (mw xw)) k); cbn [fst]; xn Hx;
       [|unfold wake_loop; destruct (k_wake k)]; (oupd HO HP0 HI0 Ht; cbn [x_pc wl3]; try discriminate; auto).
   - (* XvCas1 *) assert (t < length (xthr xw))%nat as Ht by (apply HtN; discriminate).
     unfold cas. destruct (word (mw xw) =? wake_waiters_cas1_old old); cbv beta iota.
-    + pose proof (xfer_perm (wtype (mw xw)) (first_cant_acquire (wtype (mw xw)) old (k_wake k)) (k_wake k)) as Pm.
-      destruct (xfer (wtype (mw xw)) (first_cant_acquire (wtype (mw xw)) old (k_wake k)) (k_wake k)) as [[moved stay] set_on].
+    + pose proof (xfer_perm (nrec xw) (wtype (mw xw)) (first_cant_acquire (wtype (mw xw)) old (k_wake k)) (k_wake k)) as Pm.
+      destruct (xfer (nrec xw) (wtype (mw xw)) (first_cant_acquire (wtype (mw xw)) old (k_wake k)) (k_wake k)) as [[moved stay] set_on].
       cbn [fst snd] in Pm. cbn [fst]. xn Hx. oupd HO HP0 HI0 Ht; cbn [x_pc wl3]; try discriminate; auto.
       intros p Fp. apply set_all_true in Fp. destruct Fp as [Fp | [Fp _]]; [left; exact Fp | right].
       exists t. unfold kws. rewrite Hx'. cbn [x_pc kwl]. apply (Permutation_in _ Pm), in_or_app. now left.
@@ -214,6 +215,38 @@ Proof.
     intros q N Wq. cbn [waiting set_waiting] in Wq. now apply fupd_false_true in Wq.
   - (* XvV *) assert (t < length (xthr xw))%nat as Ht by (apply HtN; discriminate).
     cbn [fst]; xn Hx; unfold wake_loop; destruct (k_wake k); (oupd HO HP0 HI0 Ht; cbn [x_pc wl3]; try discriminate; auto).
+  - (* XnStore0 *) assert (t < length (xthr xw))%nat as Ht by (apply HtN; discriminate). cbn [fst]. xn Hx.
+    oupd HO HP0 HI0 Ht; cbn [x_pc wl3]; try discriminate; auto.
+    intros p N Wp. cbn [waiting set_waiting] in Wp. now rewrite fupd_other in Wp.
+  - (* XnEnq *) assert (t < length (xthr xw))%nat as Ht by (apply HtN; discriminate).
+    destruct om as [m|]; cbn [fst]; xn Hx; (oupd HO HP0 HI0 Ht; cbn [x_pc wl3]; try discriminate; auto);
+      intros p N Wp; cbn [waiting set_waiting set_pc set_t] in Wp; now rewrite fupd_other in Wp.
+  - (* XnUnlock *) assert (t < length (xthr xw))%nat as Ht by (apply HtN; discriminate).
+    unfold mu_step. destruct (step (mw xw) t) as [m' e] eqn:E. xnorm.
+    assert (m' = fst (step (mw xw) t)) as Em by now rewrite E.
+    cbn [mw]. destruct (mu_pc_idle m' t); cbn [fst]; xn Hx; rewrite Em.
+    + apply OInv_mu; auto; cbn [x_pc wl3]; discriminate.
+    + apply OInv_mu0; auto. rewrite Hx'. discriminate.
+  - (* XnReady *) assert (t < length (xthr xw))%nat as Ht by (apply HtN; discriminate).
+    destruct (cv_ready_time_load1_guard (b2z (waiting (mw xw) t))); cbn [fst]; xn Hx;
+      (oupd HO HP0 HI0 Ht; cbn [x_pc wl3]; try discriminate; auto).
+  - (* XnSem *) assert (t < length (xthr xw))%nat as Ht by (apply HtN; discriminate).
+    destruct c; [destruct (0 <? sem (mw xw) t)|]; cbn [fst]; try exact HO; xn Hx;
+      (oupd HO HP0 HI0 Ht; cbn [x_pc wl3]; try discriminate; auto).
+  - (* XnDeq *) assert (t < length (xthr xw))%nat as Ht by (apply HtN; discriminate).
+    destruct (waiting (mw xw) t && cv_dequeue_store1_guard (b2z (mem_id t (cvq xw)))); [destruct om as [m|]|]; cbn [fst]; xn Hx;
+      (oupd HO HP0 HI0 Ht; cbn [x_pc wl3]; try discriminate; auto);
+      intros p N Wp; cbn [waiting set_waiting set_pc set_t] in Wp; now rewrite fupd_other in Wp.
+  - (* XnSpin *) assert (t < length (xthr xw))%nat as Ht by (apply HtN; discriminate).
+    destruct (waiting (mw xw) t); [|destruct om as [m|]]; cbn [fst]; try exact HO; xn Hx;
+      (oupd HO HP0 HI0 Ht; cbn [x_pc wl3]; try discriminate; auto).
+  - (* XnReacq *) assert (t < length (xthr xw))%nat as Ht by (apply HtN; discriminate).
+    unfold mu_step. destruct (step (mw xw) t) as [m' e] eqn:E. xnorm.
+    assert (m' = fst (step (mw xw) t)) as Em by now rewrite E.
+    cbn [mw]. destruct (mu_pc_idle m' t); cbn [fst]; xn Hx.
+    + rewrite nth_lupd_same by exact Ht. cbn [x_ops x_rets]. rewrite Em.
+      apply OInv_mu; auto; cbn [x_pc wl3]; discriminate.
+    + rewrite Em. apply OInv_mu0; auto. rewrite Hx'. discriminate.
 Qed.
 End Outcome.
 
@@ -256,11 +289,14 @@ Qed.
 Lemma x_picked_zero : forall progs sched t u,
   Z.of_nat (length progs) < 2 ^ 24 - 1 ->
   let xw := xrun (xinit progs) sched in
-  In t (kws xw u) -> exists l, wl3 (x_pc (xget xw t)) = Some l /\ w_out l = false /\ ~ In t (cvq xw).
+  In t (kws xw u) ->
+  (xn_rec (x_pc (xget xw t)) = true /\ ~ In t (cvq xw)) \/
+  exists l, wl3 (x_pc (xget xw t)) = Some l /\ w_out l = false /\ ~ In t (cvq xw).
 Proof.
   intros progs sched t u H xw Hin. destruct (xreachable_oinv progs sched H) as (_ & (_ & HC & _) & HO). fold xw in HC, HO.
   destruct HC as (_ & _ & _ & Hw & _). destruct (Hw u t Hin) as (Wt & Ct & Nq).
-  unfold cvs in Ct. apply andb_prop in Ct. destruct Ct as [W2 _].
+  destruct (xn_rec (x_pc (xget xw t))) eqn:NR; [left; auto | right].
+  destruct (cvs_native xw t Ct NR) as [W2 _].
   assert (exists l, wl3 (x_pc (xget xw t)) = Some l) as [l E] by (destruct (x_pc (xget xw t)); try discriminate W2; cbn [wl3]; eauto).
   exists l. split; [exact E|]. split; [|exact Nq].
   destruct (w_out l) eqn:Wo; [|reflexivity]. destruct (HO t) as [_ O2]. destruct (O2 l E Wo) as [_ X]. rewrite (X W2) in Wt. discriminate Wt.
@@ -310,7 +346,7 @@ Proof.
   destruct HZ as (l & E & Wo & Nq).
   assert (t <> u) as N by (intros ->; rewrite Hx' in E; discriminate E).
   exists l. unfold xget in E.
-  destruct o as [o'|m| |]; xn Hx; rewrite ?nth_lupd_other by exact N; auto.
+  destruct o as [o'|m| | |[m|]]; xn Hx; rewrite ?nth_lupd_other by exact N; auto.
 Qed.
 
 Ltac zupd Hu HZ Hx' := apply zero_upd; [exact Hu | exact HZ | cbn [cvq]; auto | rewrite Hx'; cbn [x_pc wl3]; intros l0 E0 W0 N0; try discriminate E0 ].
@@ -326,7 +362,7 @@ Proof.
       destruct HZ0 as (l0 & E1 & _). rewrite E0 in E1. discriminate E1.
     - revert E. unfold xbegin. cbv zeta. destruct (xget xw0 u) as [xp xo xr] eqn:Hx. cbn [x_pc x_ops x_rets].
       destruct xp; auto. destruct xo as [|o rest]; auto. destruct (mu_idle (mw xw0) u); auto.
-      destruct o; xnorm; rewrite ?nth_lupd_other by exact N; auto. }
+      destruct o as [o'|m| | |[m|]]; xnorm; rewrite ?nth_lupd_other by exact N; auto. }
   assert (x_zero (fst (xstep_thr xw0 u c)) t \/ x_returns_zero (xbegin xw0 u) (fst (xstep_thr xw0 u c)) t) as [Z | (l & E1 & E2 & E3)];
     [|left; exact Z | right; exists l; auto].
   clear HZ0 RB.
@@ -371,18 +407,18 @@ Proof.
   - assert (u < length (xthr xw))%nat as Hu by (apply HtN; discriminate).
     destruct c; [|destruct (cvq xw) eqn:Eq]; cbn [fst]; try (left; exact HZ); xn Hx; rewrite <- ?Eq; zupd Hu HZ Hx'.
   - (* XkSelect *) assert (u < length (xthr xw))%nat as Hu by (apply HtN; discriminate).
-    assert (Permutation (fst (fst (if bc then sel_broadcast (wtype (mw xw)) (cvq xw) else sel_signal (wtype (mw xw)) (cvq xw))) ++
-                         snd (fst (if bc then sel_broadcast (wtype (mw xw)) (cvq xw) else sel_signal (wtype (mw xw)) (cvq xw))))
+    assert (Permutation (fst (fst (if bc then sel_broadcast (xrd xw) (cvq xw) else sel_signal (xrd xw) (cvq xw))) ++
+                         snd (fst (if bc then sel_broadcast (xrd xw) (cvq xw) else sel_signal (xrd xw) (cvq xw))))
                         (cvq xw)) as Pm by (destruct bc; [apply sel_broadcast_perm | apply sel_signal_perm]).
-    destruct (if bc then sel_broadcast (wtype (mw xw)) (cvq xw) else sel_signal (wtype (mw xw)) (cvq xw)) as [[wk kp] allr].
+    destruct (if bc then sel_broadcast (xrd xw) (cvq xw) else sel_signal (xrd xw) (cvq xw)) as [[wk kp] allr].
     cbn [fst snd] in Pm.
-    destruct wk; cbn [fst]; xn Hx; zupd Hu HZ Hx'; intros p Hp; left; apply (Permutation_in _ Pm), in_or_app; now right.
+    destruct wk as [|f wk']; [|destruct (nrec xw f)]; cbn [fst]; xn Hx; zupd Hu HZ Hx'; intros p Hp; left; apply (Permutation_in _ Pm), in_or_app; now right.
   - assert (u < length (xthr xw))%nat as Hu by (apply HtN; discriminate).
     destruct (xfer_wanted (wtype (mw xw)) (word (mw xw)) k); cbn [fst]; xn Hx;
       [|unfold wake_loop; destruct (k_wake k)]; zupd Hu HZ Hx'.
   - assert (u < length (xthr xw))%nat as Hu by (apply HtN; discriminate).
     unfold cas. destruct (word (mw xw) =? wake_waiters_cas1_old old); cbv beta iota.
-    + destruct (xfer (wtype (mw xw)) (first_cant_acquire (wtype (mw xw)) old (k_wake k)) (k_wake k)) as [[moved stay] set_on].
+    + destruct (xfer (nrec xw) (wtype (mw xw)) (first_cant_acquire (wtype (mw xw)) old (k_wake k)) (k_wake k)) as [[moved stay] set_on].
       cbn [fst]. xn Hx. zupd Hu HZ Hx'.
     + cbn [fst]. xn Hx. unfold wake_loop; destruct (k_wake k); zupd Hu HZ Hx'.
   - assert (u < length (xthr xw))%nat as Hu by (apply HtN; discriminate). cbn [fst]. xn Hx. zupd Hu HZ Hx'.
@@ -394,6 +430,29 @@ Proof.
     destruct (k_wake k) as [|p rest]; cbn [fst]; xn Hx; zupd Hu HZ Hx'.
   - assert (u < length (xthr xw))%nat as Hu by (apply HtN; discriminate).
     cbn [fst]; xn Hx; unfold wake_loop; destruct (k_wake k); zupd Hu HZ Hx'.
+  - (* XnStore0 *) assert (u < length (xthr xw))%nat as Hu by (apply HtN; discriminate). cbn [fst]. xn Hx. zupd Hu HZ Hx'.
+  - (* XnEnq *) assert (u < length (xthr xw))%nat as Hu by (apply HtN; discriminate).
+    destruct om as [m|]; cbn [fst]; xn Hx; zupd Hu HZ Hx';
+      intros p Hp; apply in_app_or in Hp; destruct Hp as [Hp | [<- | []]]; auto.
+  - (* XnUnlock *) assert (u < length (xthr xw))%nat as Hu by (apply HtN; discriminate).
+    unfold mu_step. destruct (step (mw xw) u) as [m' e]. xnorm. cbn [mw].
+    destruct (mu_pc_idle m' u); cbn [fst]; xn Hx.
+    + zupd Hu HZ Hx'.
+    + left. destruct HZ as (l0 & E & Wo & Nq). exists l0. auto.
+  - (* XnReady *) assert (u < length (xthr xw))%nat as Hu by (apply HtN; discriminate).
+    destruct (cv_ready_time_load1_guard (b2z (waiting (mw xw) u))); cbn [fst]; xn Hx; zupd Hu HZ Hx'.
+  - (* XnSem *) assert (u < length (xthr xw))%nat as Hu by (apply HtN; discriminate).
+    destruct c; [destruct (0 <? sem (mw xw) u)|]; cbn [fst]; try (left; exact HZ); xn Hx; zupd Hu HZ Hx'.
+  - (* XnDeq *) assert (u < length (xthr xw))%nat as Hu by (apply HtN; discriminate).
+    destruct (waiting (mw xw) u && cv_dequeue_store1_guard (b2z (mem_id u (cvq xw)))); [destruct om as [m|]|]; cbn [fst]; xn Hx;
+      zupd Hu HZ Hx'; intros p Hp; left; apply (remove_id_incl _ _ _ Hp).
+  - (* XnSpin *) assert (u < length (xthr xw))%nat as Hu by (apply HtN; discriminate).
+    destruct (waiting (mw xw) u); [|destruct om as [m|]]; cbn [fst]; try (left; exact HZ); xn Hx; zupd Hu HZ Hx'.
+  - (* XnReacq *) assert (u < length (xthr xw))%nat as Hu by (apply HtN; discriminate).
+    unfold mu_step. destruct (step (mw xw) u) as [m' e]. xnorm. cbn [mw].
+    destruct (mu_pc_idle m' u); cbn [fst]; xn Hx.
+    + rewrite nth_lupd_same by exact Hu. cbn [x_ops x_rets]. zupd Hu HZ Hx'.
+    + left. destruct HZ as (l0 & E & Wo & Nq). exists l0. auto.
 Qed.
 End ZeroStable.
 
@@ -422,6 +481,6 @@ Lemma x_transferred_zero : forall progs sched t l,
 Proof.
   intros progs sched t l H xw E W2 X. exists l. split; [exact E|]. split; [apply (x_transferred_returns_zero progs sched t l H E X)|].
   destruct (xreachable_oinv progs sched H) as (_ & (_ & HC & _) & _). fold xw in HC.
-  destruct HC as (_ & Hq & _). intros Hin. destruct (Hq t Hin) as [_ Ct]. unfold cvs in Ct. rewrite X in Ct.
-  rewrite andb_false_r in Ct. discriminate Ct.
+  destruct HC as (_ & Hq & _). intros Hin. destruct (Hq t Hin) as [_ Ct].
+  destruct (cvs_native xw t Ct ltac:(destruct (x_pc (xget xw t)); try discriminate W2; reflexivity)) as [_ X']. congruence.
 Qed.
